@@ -1,7 +1,7 @@
 (* C14 property theorems.  Nothing but statements closed by `exact`, a pin, and Print Assumptions.
    The driver parses this file's output. *)
 From ZV.Common Require Import Base.
-From ZV.C14 Require Import Model ProofsMem ProofsCodec ProofsCrc ProofsUtf8 ProofsBits.
+From ZV.C14 Require Import Model ProofsMem ProofsCodec ProofsCrc ProofsUtf8 ProofsBits ProofsHash.
 Open Scope N_scope.
 
 Definition bytes (l : list N) : Prop := Forall (fun b => b < 256) l.
@@ -132,6 +132,14 @@ Print Assumptions bit_reverse_involutive.
 
 Example select_inhabited : select64 (2 ^ 63 + 2 ^ 5 + 1) 2 = Some 63 /\ reverse_bits64 1 = 2 ^ 63.
 Proof. split; vm_compute; reflexivity. Qed.
+
+
+(* hash_map string hash: the AVX2 / SSE4.2 / AVX-512 loops (m = 4 / 2 / 8 words per vector, then the scalar
+   definition on the tail) return the scalar hash for every vector width, string and seed - the hash of a key
+   does not depend on the CPU tier *)
+Theorem string_hash_simd_is_scalar : forall m bs h, simd_hash m bs h = hash_s bs h.
+Proof. exact simd_hash_correct. Qed.
+Print Assumptions string_hash_simd_is_scalar.
 
 (* hypotheses are inhabited by non-trivial values *)
 Example bytes_inhabited : bytes [0; 127; 128; 255] /\ simd_memchr 16 (repeat 7 40 ++ [200]) 200 = Some 40%nat
